@@ -21,6 +21,11 @@
 using namespace verif;
 namespace AI = AIToolbox;
 
+// does the tree under test seed the engine of NO_CHECK-built POMDP models (fixes/C08-7)?  tools/props/c08.py defines it
+#ifndef C08_POMDP_NOCHECK_SEEDED
+#define C08_POMDP_NOCHECK_SEEDED false
+#endif
+
 // ---------------------------------------------------------------- scripted engine
 struct ScriptEngine {
     using result_type = uint32_t;
@@ -116,6 +121,7 @@ static std::vector<uint64_t> sweep(Rng & rng, const std::vector<double> & vals, 
     for (auto & k : ks) k <<= 11;                                   // grid draws as raw 64-bit values
     for (int i = 0; i < 2; ++i) ks.push_back(rng.next());           // off-grid draws (finer than 2^-53 below 1/2)
     ks.push_back(rng.next() >> (unsigned)rng.range(12, 50));        // tiny off-grid draw
+    ks.push_back(~0ull);                                            // both words all ones: generate_canonical would round to 1.0 (libstdc++ clamps it below one)
     return ks;
 }
 
@@ -137,11 +143,14 @@ static void emit_dense(const std::vector<double> & p, const std::vector<uint64_t
 
 // ---------------------------------------------------------------- sparse
 struct Entry { size_t c; double v; };
-static void emit_sparse(const std::vector<std::vector<double>> & rows, size_t r, const std::vector<uint64_t> & ks) {
+static void emit_sparse(const std::vector<std::vector<double>> & rows, size_t r, const std::vector<uint64_t> & ks, bool compressed = true) {
     const size_t R = rows.size(), n = rows[0].size();
     AI::SparseMatrix2D m(R, n);
-    for (size_t i = 0; i < R; ++i) for (size_t j = 0; j < n; ++j) if (rows[i][j] != 0.0) m.insert(i, j) = rows[i][j];
-    m.makeCompressed();
+    if (!compressed) m.reserve(Eigen::VectorXi::Constant(R, (int)n));     // uncompressed mode: every row keeps free slots after its entries
+    // uncompressed: the entries of a row are inserted in descending column order (Eigen keeps the row sorted)
+    for (size_t i = 0; i < R; ++i) for (size_t jj = 0; jj < n; ++jj) { const size_t j = compressed ? jj : n - 1 - jj; if (rows[i][j] != 0.0) m.insert(i, j) = rows[i][j]; }
+    if (compressed) m.makeCompressed();
+    std::printf("#stat sparse_%s 1\n", compressed ? "compressed" : "uncompressed");
     const AI::SparseMatrix2D & cm = m;
     // stored entries of row r and everything stored after it (the flat arrays the iterator indexes)
     std::vector<Entry> row, rest;
@@ -395,10 +404,14 @@ static void emit_models(Rng & rng, int nsamples) {
     T3 t = genTable(rng, S, A, S, sparse), r = genRewards(rng, S, A);
     T3 o = genTable(rng, S, A, O, sparse);
     std::uniform_real_distribution<double> d01(0.0, 1.0);
-    auto run = [&](auto & pm, const char * kind) {
+    auto run = [&](auto & pm, const char * kind, int skipSeeds, bool pomdpSeeded) {
         // the object drew two seeds from the Seeder (MDP part first, then the POMDP part): mirror them
+        // (`skipSeeds` seeds were drawn before by the object it was copied from; a POMDP part that does not
+        // seed its engine holds a default-constructed std::mt19937)
         AI::Seeder::setRootSeed(root);
-        std::mt19937 m1(AI::Seeder::getSeed()), m2(AI::Seeder::getSeed());
+        for (int i = 0; i < skipSeeds; ++i) AI::Seeder::getSeed();
+        std::mt19937 m1(AI::Seeder::getSeed()), m2;
+        if (pomdpSeeded) m2.seed(AI::Seeder::getSeed());
         std::vector<double> row;
         for (int i = 0; i < nsamples; ++i) {
             size_t s = rng.below(S), a = rng.below(A);
@@ -438,9 +451,147 @@ static void emit_models(Rng & rng, int nsamples) {
             }
         }
     };
+    // construction routes: checked 3-D tables; NO_CHECK (matrices moved in); default object + setters; copy from
+    // the model of the other storage kind through the generic interface
+    using DenseP = AI::POMDP::Model<AI::MDP::Model>;
+    using SparseP = AI::POMDP::SparseModel<AI::MDP::SparseModel>;
+    int route = (int)rng.below(4);
     AI::Seeder::setRootSeed(root);
-    if (!sparse) { AI::POMDP::Model<AI::MDP::Model> pm(O, o, S, A, t, r, 0.9); run(pm, "dense"); }
-    else { AI::POMDP::SparseModel<AI::MDP::SparseModel> pm(O, o, S, A, t, r, 0.9); run(pm, "sparse"); }
+    try {
+        if (route == 1) {
+            AI::Matrix3D T(A, AI::Matrix2D(S, S)), OB(A, AI::Matrix2D(S, O)); AI::Matrix2D R(S, A); R.setZero();
+            for (size_t a = 0; a < A; ++a) for (size_t s = 0; s < S; ++s) {
+                for (size_t s1 = 0; s1 < S; ++s1) { T[a](s, s1) = t[s][a][s1]; R(s, a) += t[s][a][s1] * r[s][a][s1]; }
+                for (size_t x = 0; x < O; ++x) OB[a](s, x) = o[s][a][x];
+            }
+            if (!sparse) {
+                DenseP pm(AI::NO_CHECK, O, std::move(OB), AI::NO_CHECK, S, A, std::move(T), std::move(R), 0.9);
+                std::printf("#stat models_route_nocheck_dense 1\n"); run(pm, "dense", 0, C08_POMDP_NOCHECK_SEEDED);
+            } else {
+                AI::SparseMatrix3D sT(A, AI::SparseMatrix2D(S, S)), sO(A, AI::SparseMatrix2D(S, O));
+                for (size_t a = 0; a < A; ++a) { sT[a] = T[a].sparseView(); sO[a] = OB[a].sparseView(); sT[a].makeCompressed(); sO[a].makeCompressed(); }
+                AI::SparseMatrix2D sR = R.sparseView(); sR.makeCompressed();
+                SparseP pm(AI::NO_CHECK, O, std::move(sO), AI::NO_CHECK, S, A, std::move(sT), std::move(sR), 0.9);
+                std::printf("#stat models_route_nocheck_sparse 1\n"); run(pm, "sparse", 0, C08_POMDP_NOCHECK_SEEDED);
+            }
+            return;
+        }
+        if (route == 2) {
+            if (!sparse) { DenseP pm(O, S, A, 0.9); pm.setTransitionFunction(t); pm.setRewardFunction(r); pm.setObservationFunction(o);
+                std::printf("#stat models_route_setters_dense 1\n"); run(pm, "dense", 0, true); }
+            else { SparseP pm(O, S, A, 0.9); pm.setTransitionFunction(t); pm.setRewardFunction(r); pm.setObservationFunction(o);
+                std::printf("#stat models_route_setters_sparse 1\n"); run(pm, "sparse", 0, true); }
+            return;
+        }
+        if (route == 3) {
+            if (!sparse) { SparseP src(O, o, S, A, t, r, 0.9); DenseP pm(src);
+                std::printf("#stat models_route_copy_dense_from_sparse 1\n"); run(pm, "dense", 2, true); }
+            else { DenseP src(O, o, S, A, t, r, 0.9); SparseP pm(src);
+                std::printf("#stat models_route_copy_sparse_from_dense 1\n"); run(pm, "sparse", 2, true); }
+            return;
+        }
+    } catch (const std::invalid_argument &) {
+        // the copy constructors reject single entries above 1.0 (a row [1+2^-21, 0, ...] passes isProbability): C06's subject
+        std::printf("#stat models_route%d_rejected 1\n", route);
+        AI::Seeder::setRootSeed(root);
+    }
+    std::printf("#stat models_route_tables_%s 1\n", sparse ? "sparse" : "dense");
+    if (!sparse) { DenseP pm(O, o, S, A, t, r, 0.9); run(pm, "dense", 0, true); }
+    else { SparseP pm(O, o, S, A, t, r, 0.9); run(pm, "sparse", 0, true); }
+}
+
+// The engine of a model object must be seeded from the Seeder on every construction route: K observations of a
+// NO_CHECK-built POMDP model against the draws of an mt19937 seeded with the object's (second) Seeder seed.
+static void emit_seeded(Rng & rng, bool sparse, unsigned root) {
+    const size_t S = 2, A = 1, O = 4, K = 16;
+    std::vector<double> orow{0.25, 0.25, 0.25, 0.25};
+    AI::Matrix3D T(A, AI::Matrix2D::Constant(S, S, 0.5)), OB(A, AI::Matrix2D::Constant(S, O, 0.25)); AI::Matrix2D R = AI::Matrix2D::Zero(S, A);
+    AI::Seeder::setRootSeed(root);
+    AI::Seeder::getSeed();                                   // the MDP part's seed
+    std::mt19937 m2(AI::Seeder::getSeed());                  // the seed the POMDP part is expected to take
+    std::uniform_real_distribution<double> d01(0.0, 1.0);
+    std::vector<double> us; for (size_t i = 0; i < K; ++i) us.push_back(d01(m2));
+    std::vector<size_t> obs;
+    AI::Seeder::setRootSeed(root);
+    if (!sparse) {
+        AI::POMDP::Model<AI::MDP::Model> pm(AI::NO_CHECK, O, std::move(OB), AI::NO_CHECK, S, A, std::move(T), std::move(R), 0.9);
+        for (size_t i = 0; i < K; ++i) obs.push_back(std::get<0>(pm.sampleOR(0, 0, rng.below(S))));
+    } else {
+        AI::SparseMatrix3D sT(A, AI::SparseMatrix2D(S, S)), sO(A, AI::SparseMatrix2D(S, O));
+        sT[0] = T[0].sparseView(); sO[0] = OB[0].sparseView(); sT[0].makeCompressed(); sO[0].makeCompressed();
+        AI::SparseMatrix2D sR(S, A);
+        AI::POMDP::SparseModel<AI::MDP::SparseModel> pm(AI::NO_CHECK, O, std::move(sO), AI::NO_CHECK, S, A, std::move(sT), std::move(sR), 0.9);
+        for (size_t i = 0; i < K; ++i) obs.push_back(std::get<0>(pm.sampleOR(0, 0, rng.below(S))));
+    }
+    Line l; l << "C08" << "seeded" << (sparse ? "POMDP::SparseModel(NO_CHECK)" : "POMDP::Model(NO_CHECK)"); l.nums(orow); l.nums(us); l << "|"; l.nats(obs); l.emit();
+}
+
+// ---------------------------------------------------------------- isProbability: matrix overloads
+// A D x R x C table, valid except (half of the time) for ONE defective row at a random place; the six
+// matrix-level overloads must agree with the row-by-row reading on which the sampler theorems rest.
+static void emit_isprobm(Rng & rng) {
+    const size_t D = (size_t)rng.range(1, 3), R = (size_t)rng.range(1, 4), C = (size_t)rng.range(1, 6);
+    T3 t(D, std::vector<std::vector<double>>(R));
+    int shape;
+    for (auto & m : t) for (auto & row : m) row = genProb(rng, C, shape);
+    int defect = rng.coin() ? (int)rng.below(7) : -1;
+    const size_t dd = rng.below(D), dr = rng.below(R), i = rng.below(C), j = (i + 1 + rng.below(C > 1 ? C - 1 : 1)) % C;
+    auto & row = t[dd][dr];
+    static const double tiny[] = {1e-7, 1e-9, 0x1p-30, 1e-12, 4e-7};
+    switch (defect) {
+        case 0: { double e = tiny[rng.below(5)]; if (C > 1) { row[j] += row[i] + e; row[i] = -e; } else defect = -1; break; }   // tiny negative entry, sum kept
+        case 1: if (C > 1) { row[j] += row[i] + 0.25; row[i] = -0.25; } else defect = -1; break;                               // large negative entry, sum kept
+        case 2: row[i] += rng.coin() ? 2e-6 : (row[i] >= 2e-6 ? -2e-6 : 2e-6); break;                                         // sum off by 2e-6
+        case 3: { static const double offs[] = {1e-6 + 1e-8, -(1e-6 + 1e-8), 1e-6 - 1e-8, -(1e-6 - 1e-8)}; double o = offs[rng.below(4)]; if (row[i] + o >= 0) row[i] += o; else row[i] -= o; break; }
+        case 4: if (C > 1) { row[j] += row[i] + 1.0; row[i] = -1.0; } else defect = -1; break;                                  // an entry above one balanced by a negative one
+        case 5: row[i] = row[i] == 0.0 ? -0.0 : row[i]; break;                                                                 // negative zero: still valid
+        case 6: for (auto & x : row) x = 0.0; break;                                                                           // all-zero row
+        default: break;
+    }
+    std::printf("#stat isprobm_defect_%d 1\n#stat isprobm_defect_at_%s 1\n", defect, defect < 0 ? "none" : (dd + 1 == D && dr + 1 == R) ? "last_row" : (dd == 0 && dr == 0) ? "first_row" : "inner_row");
+    const bool explicitZeros = rng.coin(1, 3), compressed = !rng.coin(1, 4);
+    AI::Matrix3D m3(D, AI::Matrix2D(R, C)); AI::SparseMatrix3D s3(D, AI::SparseMatrix2D(R, C));
+    for (size_t d = 0; d < D; ++d) {
+        for (size_t r = 0; r < R; ++r) for (size_t c = 0; c < C; ++c) {
+            m3[d](r, c) = t[d][r][c];
+            if (t[d][r][c] != 0.0 || explicitZeros) s3[d].insert(r, c) = t[d][r][c];
+        }
+        if (compressed) s3[d].makeCompressed();
+    }
+    Line l; l << "C08" << "isprobm" << D; for (auto & m : t) { l << R; for (auto & rw : m) l.nums(rw); }
+    l << "|" << AI::isProbability(D, R, C, t) << AI::isProbability(m3) << AI::isProbability(s3)
+      << AI::isProbability(R, C, t[dd]) << AI::isProbability(m3[dd]) << AI::isProbability(s3[dd]);
+    l.emit();
+}
+
+// ---------------------------------------------------------------- rollouts through one object (one engine by reference)
+// The action of every step is a function of ALL earlier outcomes (their sum modulo A), so the row scanned at
+// step t depends on the whole history; the object's engines are mirrored.
+static void emit_traj(Rng & rng, int steps) {
+    const size_t S = (size_t)rng.range(2, 5), A = (size_t)rng.range(1, 3), O = (size_t)rng.range(2, 4);
+    const unsigned root = (unsigned)rng.next();
+    const bool sparse = rng.coin(), pomdp = rng.coin();
+    T3 t = genTable(rng, S, A, S, sparse), r = genRewards(rng, S, A), o = genTable(rng, S, A, O, sparse);
+    std::uniform_real_distribution<double> d01(0.0, 1.0);
+    const size_t s0 = rng.below(S);
+    auto go = [&](auto & pm) {
+        AI::Seeder::setRootSeed(root);
+        std::mt19937 m1(AI::Seeder::getSeed()), m2(AI::Seeder::getSeed());
+        std::vector<double> us; std::vector<size_t> out;
+        size_t s = s0, sum = 0;
+        for (int k = 0; k < steps; ++k) {
+            const size_t a = sum % A;
+            if (!pomdp) { us.push_back(d01(m1)); auto [s1, rew] = pm.sampleSR(s, a); out.push_back(s1); sum += s1; s = s1; }
+            else { us.push_back(d01(m1)); us.push_back(d01(m2)); auto [s1, ob, rew] = pm.sampleSOR(s, a); out.push_back(s1); out.push_back(ob); sum += s1 + ob; s = s1; }
+        }
+        Line l; l << "C08" << "traj" << (pomdp ? "pomdp" : "mdp") << (sparse ? "sparse" : "dense") << A;
+        l << A; for (size_t a = 0; a < A; ++a) { l << S; for (size_t x = 0; x < S; ++x) { std::vector<double> row; rowOf(pm.getTransitionFunction(a), x, row); l.nums(row); } }
+        l << A; for (size_t a = 0; a < A; ++a) { l << S; for (size_t x = 0; x < S; ++x) { std::vector<double> row; rowOf(pm.getObservationFunction(a), x, row); l.nums(row); } }
+        l << s0; l.nums(us); l << "|"; l.nats(out); l.emit();
+    };
+    AI::Seeder::setRootSeed(root);
+    if (!sparse) { AI::POMDP::Model<AI::MDP::Model> pm(O, o, S, A, t, r, 0.9); go(pm); }
+    else { AI::POMDP::SparseModel<AI::MDP::SparseModel> pm(O, o, S, A, t, r, 0.9); go(pm); }
 }
 
 // Factored model: one independent row scan per state factor, all from the object's own engine.
@@ -528,7 +679,7 @@ static void emit_sparse_model_witness() {
 }
 
 // ---------------------------------------------------------------- cases
-static const long kWitness = 22;
+static const long kWitness = 24;
 
 // exhaustive small scope: every vector k/8 with 2..4 entries (zeros anywhere, mass anywhere)
 static std::vector<std::vector<double>> g_small;
@@ -579,6 +730,8 @@ static void witness(Rng & rng, long idx) {
 #endif
             break;
         }
+        case 22: emit_seeded(rng, false, 1); break;                               // POMDP::Model(NO_CHECK): engine not seeded from the Seeder
+        case 23: emit_seeded(rng, true, 2); break;                                // POMDP::SparseModel(NO_CHECK) likewise
         case 20: emit_gamma_underflow(false); break;                             // Dirichlet(0.001, 0.001): both gamma draws underflow to 0 -> NaN
         case 21: emit_gamma_underflow(true); break;                              // Beta(0.001, 0.001) likewise
         case 14: emit_proj({1e308, 1e308}); break;                               // finite input whose sum overflows a double
@@ -608,7 +761,7 @@ void verif::verif_case(Rng & rng, long idx, const std::string & tier) {
     idx -= (long)g_small.size();
     const bool thorough = tier == "thorough";
     const size_t maxN = thorough ? 64 : 12;
-    int fam = (int)((idx - kWitness) % 10);
+    int fam = (int)((idx - kWitness) % 12);
     size_t n = (size_t)rng.range(1, rng.coin(3, 4) ? 8 : (long)maxN);
     int shape = 0;
     switch (fam) {
@@ -625,7 +778,7 @@ void verif::verif_case(Rng & rng, long idx, const std::string & tier) {
             size_t r = rng.below(R);
             std::printf("#stat sparse_shape%d 1\n#stat sparse_%s 1\n", shape, r + 1 == R ? "lastrow" : "innerrow");
             auto ks = sweep(rng, rows[r], 6);
-            if (!ks.empty()) emit_sparse(rows, r, ks);
+            if (!ks.empty()) emit_sparse(rows, r, ks, !rng.coin(1, 3));
             break;
         }
         case 2: {
@@ -667,6 +820,11 @@ void verif::verif_case(Rng & rng, long idx, const std::string & tier) {
         }
         case 8: emit_gamma(rng); emit_gamma(rng); std::printf("#stat gamma 1\n"); break;
         case 6: emit_models(rng, thorough ? 12 : 8); std::printf("#stat models 1\n"); break;
+        case 10: emit_isprobm(rng); emit_isprobm(rng); break;
+        case 11: {
+            if (rng.coin(1, 8)) { emit_seeded(rng, rng.coin(), (unsigned)rng.next()); std::printf("#stat seeded 1\n"); }
+            emit_traj(rng, (int)rng.range(1, thorough ? 24 : 10)); std::printf("#stat traj 1\n"); break;
+        }
         default: emit_factored(rng, thorough ? 8 : 4); std::printf("#stat factored_models 1\n"); break;
     }
 }
